@@ -66,16 +66,40 @@ package cfg
 
 // VerifyGroupNumbers (C13 / C17): what mask.maskValue and the substitution regex
 // filter require of their group lists is what this validation returns - every
-// group number within 0..totalGroups (otherwise the process exits at start-up).
+// group number within 0..totalGroups and no number twice (otherwise the process
+// exits at start-up).  Group 0 is the whole expression ("zero for mask all
+// expression"): a list that names it still names it in the result (the code reduces
+// it to [0], any shape that keeps 0 selected would do); any other accepted list is
+// handed back as it is, elements untouched (so every configured group stays
+// selected, either by its own number or by group 0, and nothing else is selected).
 
 //@ func VerifyGroupNumbers
 //@   option allow-exit yes
 //@   requires totalGroups >= 0
+//@   pure
 //@   ensures allrange(result, 0, totalGroups + 1)
-//@   loop 1 invariant rangeindex < len(groups) && allrange(groups[:rangeindex+1], 0, totalGroups + 1)
-//@   callee isGroupsUnique(g) (r)
-//@     pure
+//@   ensures distinct(result)
+//@   ensures !nochr(groups, 0) ==> !nochr(result, 0)
+//@   ensures nochr(groups, 0) ==> result == groups
+//@   loop 1 invariant rangeindex < len(groups) && allrange(groups[:rangeindex+1], 1, totalGroups + 1) && distinct(groups)
 //@   callee Ints(k, v)
 //@     pure
 //@   callee Int(k, v)
 //@     pure
+
+// isGroupsUnique: true exactly when no number occurs twice.  Go maps are not modelled
+// by the verifier, so the set semantics of the local map is the one thing assumed here,
+// and it is assumed relative to a proved history: nins counts the insertions, the k-th
+// insertion is proved to insert groups[k] (oracle on the map update), one insertion per
+// element visited (invariant); assumed: a lookup finds a key iff it was inserted.
+
+//@ func isGroupsUnique
+//@   pure
+//@   ghost nins int = 0
+//@   ensures result == distinct(groups)
+//@   loop 1 invariant nins == rangeindex + 1 && rangeindex < len(groups) && distinct(groups[:nins])
+//@   setat "uniqueGrp[g] = exists" nins := nins + 1
+//@   callee mapupdate:uniqueGrp(k, v)
+//@     requires 0 < nins && nins <= len(groups) && k == groups[nins - 1]
+//@   callee maplookup:uniqueGrp(k) (v, ok)
+//@     ensures ok == !nochr(groups[:nins], k)
